@@ -8,7 +8,7 @@
                grammar time, SyntaxError swallowed), p_scope_open / p_block (push / pop),
                post_parse (top-level units evaluated in order, top-level variables re-registered)
     block.py   Block.parse (push, items in order, pop)                              -> `passE`
-    identifier.py parse: one-level swap of `@{x}` in selectors                      -> `resolveSel`
+    identifier.py parse: `@{x}` in selectors, substituted until no variable is left -> `resolveSel`
 
   Two passes over the same program, as in the code: pass G is what the yacc actions do in
   reduction order, pass E is `post_parse`.
@@ -99,17 +99,18 @@ def litText : Value → List String
   | .lit s :: r => s :: litText r
   | .ref n :: r => ("@" ++ n) :: litText r
 
-/-- one-level swap of the interpolations of a selector (`Identifier.parse`'s `replace_variables`):
-    the value's tokens are spliced in as they are (no further substitution) -/
+/-- the interpolations of a selector (`Identifier.parse`'s `replace_variables`, since the repository's fix for chained variables in selectors): every `@{x}` is
+    replaced by the value of `x`, substituted until no variable is left, like a declaration value (the code bounds the rounds by the
+    number of known variables; the model by 64, as everywhere) -/
 def resolveSel (sc : Scope) : List STok → Except Err (List String)
   | [] => .ok []
   | .lit s :: r => do
       let r' ← resolveSel sc r
       pure (s :: r')
   | .interp n :: r =>
-      match lookup sc n with
-      | none => .error (.unknownVar n)
-      | some v => do
+      match expand sc 64 [.ref n] with
+      | .error e => .error e
+      | .ok v => do
           let r' ← resolveSel sc r
           pure (litText v ++ r')
 
